@@ -33,6 +33,7 @@ func richConfig(t *rapid.T) luagen.Config {
 	cfg.RichLits = true
 	cfg.Bitops = true
 	cfg.StringCalls = true
+	cfg.BlockReturn = true
 	cfg.MaxStats = 10
 	return cfg
 }
